@@ -22,6 +22,7 @@ MCTrig == {"empty", "obsdup", "sampdup", "obsmdsize", "sampmdsize"}
 MCSites == [k \in Kinds |-> IF k = "empty" THEN {"constructor", "filter_inplace", "filter_copy", "update_ids", "collapse"}
                             ELSE IF k \in {"obsmdsize", "sampmdsize"} THEN {"constructor", "constructor_zero_length_md"}
                             ELSE {"constructor"}]
+MCFocus == IF "focus" \in DOMAIN Cfg THEN Cfg.focus ELSE ""
 MCDepth == Cfg.depth
 MCNest == Cfg.nest
 MCPick == Cfg.pick
